@@ -43,13 +43,53 @@ DESC = {
               "idle_timeout > 0 AND a stop flag configured (never set); a connection arriving partway through the idle period"),
     "C15-2": ("C15", "ThreadPool gets a shutting_down flag set by drop(); a worker skips a NewJob it receives once the flag is set",
               "pool saturated at max workers, a connection queued, stop flag set while a long-lived connection occupies the worker"),
+    "C01-3": ("C01", "handle(): `continue` after a method name without a dot becomes `break` (read-ahead returned as rest, which listen() discards without an upgrade)",
+              "a dot-less method name plus at least one more request in flight in the same read"),
+    "C01-4": ("C01", "is_oneway() matches `oneway: Some(_)` instead of `Some(true)`",
+              "a request carrying an explicit \"oneway\": false (treated as oneway, silently unanswered)"),
+    "C02-3": ("C02", "handle() returns early after a dispatch when the inner BufReader's buffer is empty",
+              "a message whose NUL lands exactly on byte k*8192 of the fed buffer, with more requests following"),
+    "C02-4": ("C02", "listen worker: `unread = if i.is_some()` becomes `if iface.is_some()` (the previous mode)",
+              "payload pipelined behind the upgrade request in the same write"),
+    "C03-2": ("C03", "built-in Interface::call: `m == \"org.varlink.service.GetInfo\"` becomes `m.ends_with(\"GetInfo\")`",
+              "a method string such as org.varlink.service.XGetInfo"),
+    "C03-3": ("C03", "VarlinkService::new pushes the GetInfo name list inside the registration loop instead of taking the HashMap keys",
+              "the same interface name registered twice (listed twice)"),
+    "C04-3": ("C04", "reply_struct: the oneway early-return became an `else if` of `if self.continues`",
+              "oneway:true AND more:true on a method that streams via set_continues(true)"),
+    "C04-4": ("C04", "the oneway check became `self.is_oneway() && reply.error.is_none()`",
+              "a oneway request that fails (unknown interface/method, no dot, invalid parameter)"),
+    "C05-3": ("C05", "wants_more() matches `more: Some(_)`",
+              "a request carrying an explicit \"more\": false on a method that sets continues"),
+    "C05-4": ("C05", "recv(): the two self.continues assignments became `self.continues = self.reader.is_some()` after the error early-return",
+              "a more call whose final reply is an error, and a consumer that keeps polling the iterator"),
+    "C06-3": ("C06", "handle() parses String::from_utf8_lossy(&buf) with from_str instead of from_slice(&buf)",
+              "invalid UTF-8 inside a JSON string token (accepted and answered instead of rejected)"),
+    "C06-4": ("C06", "listen worker: `unread = rest` regardless of upgrade",
+              "a truncated message followed by EOF / half-close through listen(): endless busy loop, connection never closed"),
+    "C07-3": ("C07", "recv(): match arms `Some(true)` / `_` became `Some(c) => self.continues = c` / `None => give slots back`",
+              "a final reply carrying an explicit \"continues\": false, then another call (ConnectionBusy forever)"),
+    "C07-4": ("C07", "From<Reply> for ErrorKind: the MethodNotImplemented fallback returns MethodNotFound(\"\")",
+              "error name MethodNotImplemented together with ill-typed parameters"),
+    "C14-3": ("C14", "worker loop: the recv() statement folded into the match scrutinee (receiver lock held while the job runs)",
+              "two overlapping connections"),
+    "C14-4": ("C14", "ThreadPool::new: `0..initial_worker` becomes `0..=initial_worker`",
+              "a configuration with initial >= max and max+1 simultaneous long-lived connections"),
+    "C15-3": ("C15", "to_wait / wait_time hoisted out of the outer accept loop",
+              "stop flag present, idle_timeout > 0, a connection arriving partway through the idle period"),
+    "C15-4": ("C15", "`if stop.load(SeqCst)` becomes `if stop.load(SeqCst) && pool.num_busy() == 0`",
+              "the flag set while a connection is in flight and a new client arriving afterwards (still served)"),
+    "C17-2": ("C17", "#[serde(skip_serializing_if = \"Vec::is_empty\")] added on ServiceInfo::interfaces",
+              "an empty interface list (member dropped, deserialization fails)"),
+    "C17-3": ("C17", "Request::parameters: skip_serializing_if replaced by #[serde(default)]",
+              "a request with parameters: None (serialises \"parameters\":null)"),
     "C17-1": ("C17", "skip_serializing_if predicate replaced by `flag_is_default` (omit Some(false) like None) on Request/Reply flags",
               "a flag explicitly set to Some(false): round trip yields None; {\"oneway\":false} re-serialises without the member"),
 }
 
 
 def main():
-    log = open(sys.argv[1]).read() if len(sys.argv) > 1 and os.path.exists(sys.argv[1]) else ""
+    log = "\n".join(open(a).read() for a in sys.argv[1:] if os.path.exists(a))
     conf = {}
     for l in log.split("\n"):
         m = re.match(r"(C\d\d-\d) demo_on_HEAD=(\d+) demo_with_patch=(\d+) varlink_lib_tests_with_patch=(\d+) certification_example_with_patch=(\d+) \| base: (.*?) \| patched: (.*)$", l)
